@@ -1,5 +1,5 @@
 """C09 — Deref and DerefMut expose exactly the designated field."""
-import time
+import os, time
 from .. import common, gen, b1
 
 
@@ -92,9 +92,67 @@ class P(b1.Plugin):
         return r
 
 
+GENERIC_DEREF = [
+    ("#[educe(Deref)] pub struct G%d<T = u8>(pub T);", "G%d::<u8>(7)", "0"),
+    ("#[educe(Deref, DerefMut)] pub struct G%d<T = u8, const N: usize = 2>(pub [u8; N], #[educe(Deref, DerefMut)] pub T);", "G%d::<u16, 2>([1, 2], 7)", "1"),
+    ("#[educe(Deref)] pub struct G%d<'a, T: ?Sized = str> { pub a: u8, #[educe(Deref)] pub b: &'a T }", "G%d::<str> { a: 1, b: \"xy\" }", "*1"),
+    ("#[educe(Deref, DerefMut)] pub enum G%d<T, U = T> where T: Copy { A(T), B { #[educe(Deref, DerefMut)] x: T, y: U } }", "G%d::<u8, u16>::B { x: 3, y: 4 }", "B0"),
+    ("#[educe(Deref)] pub enum G%d<'a, T> { A(&'a T), B(#[educe(Deref)] &'a T, u8), C { x: Box<T> } }", "G%d::C { x: Box::new(9u8) }", "skip"),
+    ("#[educe(Deref, DerefMut)] pub struct G%d<const N: usize>(#[educe(Deref, DerefMut)] pub [u8; N], pub u8);", "G%d::<3>([1, 2, 3], 4)", "0"),
+]
+
+
+def generic_deref_tie(tie):
+    """generic parameter lists (defaults, const parameters, lifetimes, where-clauses) on Deref / DerefMut: the impls must
+    compile, and `&*x` must be the designated field"""
+    import subprocess
+    so = common.build_proc_macro()
+    work = common.scratch("C09g")
+    parts = ["#![allow(warnings)]", "use educe::Educe;"]
+    mains = []
+    for i, (t, val, where) in enumerate(GENERIC_DEREF):
+        parts.append("#[derive(Educe)] " + (t % i))
+        v = val % i
+        if where == "skip":
+            mains.append("{ let x = %s; let _ = &*x; println!(\"%d ok\"); }" % (v, i))
+        elif where.startswith("*"):
+            mains.append("{ let x = %s; println!(\"%d {}\", (&*x as *const _ as *const u8 as usize) == (x.b as *const _ as *const u8 as usize)); }" % (v, i))
+        elif where.startswith("B"):
+            mains.append("{ let mut x = %s; let p = &*x as *const _ as usize; let q = match &x { G%d::B { x: f, .. } => f as *const _ as usize, _ => 0 }; *x = 9; let w = match &x { G%d::B { x: f, y } => (*f, *y), _ => (0, 0) }; println!(\"%d {} {:?}\", p == q, w); }" % (v, i, i, i))
+        else:
+            mains.append("{ let x = %s; println!(\"%d {}\", (&*x as *const _ as usize) == (&x.%s as *const _ as usize)); }" % (v, i, where))
+    parts.append("fn main() {\n" + "\n".join(mains) + "\n}")
+    path = os.path.join(work, "generic_deref.rs")
+    open(path, "w").write("\n".join(parts) + "\n")
+    rc, diags = common.rustc_compile(path, os.path.join(work, "generic_deref"), so)
+    tie["evaluations"] += len(GENERIC_DEREF)
+    errs = [d for d in diags if d.get("level") == "error" and d.get("spans")]
+    if rc != 0:
+        e = errs[0] if errs else {"message": "rustc failed"}
+        ln = e["spans"][0]["line_start"] if errs else 0
+        src = parts[ln - 1] if 0 < ln <= len(parts) else ""
+        tie["failing"].append({"what": "an educed Deref / DerefMut on a generic type does not compile", "rust_source": src,
+                               "observed": (e.get("rendered") or e.get("message"))[:600], "expected_spec": "compiles"})
+    else:
+        p = subprocess.run([os.path.join(work, "generic_deref")], capture_output=True, text=True, timeout=120)
+        want = ["0 true", "1 true", "2 true", "3 true (9, 4)", "4 ok", "5 true"]
+        got = p.stdout.split("\n")[:-1]
+        if got != want:
+            k = next((j for j in range(min(len(got), len(want))) if got[j] != want[j]), 0)
+            tie["failing"].append({"what": "`&*x` of a generic type is not the designated field", "rust_source": "#[derive(Educe)] " + (GENERIC_DEREF[k][0] % k),
+                                   "observed": got[k] if k < len(got) else p.stderr[-300:], "expected_spec": want[k]})
+    tie["extra"]["generic_deref_definitions"] = len(GENERIC_DEREF)
+    import shutil
+    shutil.rmtree(work, ignore_errors=True)
+
+
 def main(tier):
     t0 = time.time()
     proof = common.proof_obligations("C09")
     n_defs, cap_vals = (250, 3) if tier == "quick" else (3000, 6)
     tie = b1.run_b1("C09", P(), n_defs, cap_vals, common.seed())
+    try:
+        generic_deref_tie(tie)
+    except (common.BuildError, OSError) as e:
+        tie["broken"].append("harness: " + str(e)[:300])
     return common.finish("C09", tier, t0, proof, tie)
